@@ -222,7 +222,14 @@ func RunLatch(seed int64, dur time.Duration) (out []Ev) {
 				}
 				runs = append(runs, [4]int{t[0], t[1], t[2], 1})
 			}
-			w.T.Log(Ev{"e": "lread", "how": how, "o": o, "runs": runs, "distinct": len(seen), "reads": int(atomic.LoadInt64(&reads))})
+			// (in pieces: a long run leaves tens of thousands of runs per row)
+			for lo := 0; lo == 0 || lo < len(runs); lo += 4000 {
+				hi := lo + 4000
+				if hi > len(runs) {
+					hi = len(runs)
+				}
+				w.T.Log(Ev{"e": "lread", "how": how, "o": o, "runs": runs[lo:hi], "distinct": len(seen), "reads": int(atomic.LoadInt64(&reads))})
+			}
 		}
 	}
 	_ = rnd
